@@ -55,6 +55,17 @@ def _grid_pos(rng, tshape, shape, scale):
     return i + (c - np.floor(c))  # integer (odd side) or half-integer (even side)
 
 
+def _sim(rng, order, scale, case):
+    """A simulator of the requested order, built directly or derived from one of another order with replace()."""
+    from acryo import TomogramSimulator
+
+    if rng.random() < 0.35:
+        other = [o for o in (0, 1, 3) if o != order][int(rng.integers(0, 2))]
+        case.count("simulators_via_replace")
+        return TomogramSimulator(order=other, scale=scale * 2.0).replace(order=order, scale=scale)
+    return TomogramSimulator(order=order, scale=scale)
+
+
 def _comp(rng, tmpl, scale, case):
     """The component image as an array or as an ImageProvider that yields the same array at the simulator's scale."""
     if rng.random() < 0.4:
@@ -87,7 +98,7 @@ def run(case):
             g[2] += j * (shape[2] + 6)
             poss.append(g)
         mole = Molecules(np.array(poss) * scale)
-        sim = TomogramSimulator(order=order, scale=scale)
+        sim = _sim(rng, order, scale, case)
         sim.add_molecules(mole, _comp(rng, tmpl, scale, case))
         vol = sim.simulate(tshape)
         if nm >= 2:
@@ -179,7 +190,7 @@ def run(case):
                                          else [0, 0, 0, 1.0] for _ in range(nm)]))
         pad = int(rng.integers(shape[0] + 2, shape[0] + 8))
         try:
-            simA = TomogramSimulator(order=order, scale=scale).add_molecules(Molecules(pos * scale, R), _comp(rng, tmpl, scale, case))
+            simA = _sim(rng, order, scale, case).add_molecules(Molecules(pos * scale, R), _comp(rng, tmpl, scale, case))
             va = simA.simulate(tshape)
             simB = TomogramSimulator(order=order, scale=scale).add_molecules(Molecules((pos + pad) * scale, R), tmpl)
             big = simB.simulate(tuple(s + 2 * pad for s in tshape))
@@ -211,7 +222,7 @@ def run(case):
         R = gen.random_rotation(rng) if rng.random() < 0.8 else Rotation.identity()
         ppx = rng.uniform(np.asarray(shape) / 2 + 3, np.asarray(tshape) - np.asarray(shape) / 2 - 4)
         mole = Molecules(ppx[None] * scale, Rotation.from_quat(R.as_quat()[None]))
-        sim = TomogramSimulator(order=order, scale=scale).add_molecules(mole, _comp(rng, tmpl, scale, case))
+        sim = _sim(rng, order, scale, case).add_molecules(mole, _comp(rng, tmpl, scale, case))
         vol = sim.simulate(tshape).astype(np.float64)
         truth = gen.render_world(tshape, blobs, ppx, R, dtype=None)
         case.nontrivial(("general", p["iseed"]))
